@@ -537,6 +537,59 @@ static int sch_ecdsa(sess_t *s) {
 				}
 				ec_free(p);
 			}
+			if (f && !strcmp(f->kind, "v_forgelargex") && rc == RLC_OK) {
+				/* a *valid* triple whose point R = u1 G + u2 Q has an x-coordinate in [n, p), so that r = x - n:
+				 * choose R with such an x, any s, and derive the key Q = r^-1 (s R - e G).  A verifier that
+				 * compares x(R) with r without reducing it modulo n rejects it. */
+				uint8_t h[RLC_MD_LEN];
+				const uint8_t *m = s->msg;
+				size_t len = s->msg_len;
+				bn_t fp, x;
+				ec_t R, T;
+				bn_null(fp); bn_null(x); bn_new(fp); bn_new(x);
+				ec_null(R); ec_null(T); ec_new(R); ec_new(T);
+				fp->used = RLC_FP_DIGS; dv_copy(fp->dp, fp_prime_get(), RLC_FP_DIGS); bn_trim(fp);
+				if (!s->opt[0]) { md_map(h, m, len); m = h; len = RLC_MD_LEN; }
+				if (8 * len > bn_bits(ord)) {
+					len = RLC_CEIL(bn_bits(ord), 8);
+					bn_read_bin(s->b[3], m, len);
+					bn_rsh(s->b[3], s->b[3], 8 * len - bn_bits(ord));
+				} else {
+					bn_read_bin(s->b[3], m, len);
+				}
+				bn_mod(s->b[3], s->b[3], ord);
+				int found = 0;
+				if (bn_cmp(ord, fp) == RLC_LT) {
+					bn_add_dig(x, ord, 1 + (dig_t)(f->a % 5000));
+					for (int i = 0; i < 64 && !found && bn_cmp(x, fp) == RLC_LT; i++, bn_add_dig(x, x, 1)) {
+						/* decompress (x, parity): succeeds iff x^3 + a x + b is a square */
+						fp_prime_conv(T->x, x);
+						fp_zero(T->y); fp_set_bit(T->y, 0, (int)(f->b & 1));
+						fp_set_dig(T->z, 1);
+						T->coord = BASIC;
+						if (ec_upk(R, T) && ec_on_curve(R)) found = 1;
+					}
+					if (found) bn_sub_dig(x, x, 1);
+				}
+				if (found) {
+					bn_sub(s->b[1], x, ord);							/* r = x - n, 0 < r < n */
+					bn_rand_mod(s->b[2], ord);
+					if (bn_is_zero(s->b[2])) bn_set_dig(s->b[2], 1);
+					bn_mod_inv(x, s->b[1], ord);						/* r^-1 */
+					bn_mul(fp, s->b[2], x); bn_mod(fp, fp, ord);		/* s r^-1 */
+					ec_mul(T, R, fp);
+					bn_mul(fp, s->b[3], x); bn_mod(fp, fp, ord);		/* e r^-1 */
+					bn_sub(fp, ord, fp); bn_mod(fp, fp, ord);			/* - e r^-1 */
+					ec_mul_gen(R, fp);
+					ec_add(T, T, R);
+					ec_norm(T, T);
+					if (!ec_is_infty(T)) {
+						ec_copy(s->e[0], T);
+						tr_printf("NOTE %d valid-signature-with-large-x\n", s->sid);
+					}
+				}
+				bn_free(fp); bn_free(x); ec_free(R); ec_free(T);
+			}
 			if (f && !strcmp(f->kind, "v_forgeord2")) {
 				/* a point of order two on another curve: Q' = (x0, 0) is off the curve; with the pre-hashed digest
 				 * zero (u1 = 0) the verification equation only computes u2 Q', and (r, s) = (x0 mod n, r) gives
